@@ -178,7 +178,13 @@ class Evaluator:
             if s.get("init"):
                 self.block(s["init"], env, this)
             n = 0
-            while s.get("c") is None or self.truth(self.eval(s["c"], env, this)):
+
+            def more():
+                if s.get("var"):           # condition declaration: `for (...; auto x = f (); )`
+                    env[s["var"]["id"]] = self.eval(s["var"].get("init"), env, this)
+                    return self.truth(env[s["var"]["id"]]) if s.get("c") is None or self._is_var_ref(s["c"], s["var"]["id"]) else self.truth(self.eval(s["c"], env, this))
+                return s.get("c") is None or self.truth(self.eval(s["c"], env, this))
+            while more():
                 try:
                     self.block(s["body"], env, this)
                 except Break:
@@ -192,7 +198,13 @@ class Evaluator:
                     raise Broken("loop does not terminate on the abstract domain")
         elif k == "while":
             n = 0
-            while self.truth(self.eval(s["c"], env, this)):
+
+            def wmore():
+                if s.get("var"):
+                    env[s["var"]["id"]] = self.eval(s["var"].get("init"), env, this)
+                    return self.truth(env[s["var"]["id"]])
+                return self.truth(self.eval(s["c"], env, this))
+            while wmore():
                 try:
                     self.block(s["body"], env, this)
                 except Break:
@@ -257,6 +269,17 @@ class Evaluator:
                     continue
         elif k == "throw":
             raise Thrown(s.get("l"))
+        elif k == "try":
+            try:
+                self.block(s["body"], env, this)
+            except Thrown as t:
+                hs = s.get("handlers") or []
+                if len(hs) != 1:
+                    raise Broken("try with %d handlers: cannot tell which one catches (unmodelled)" % len(hs))
+                h = hs[0]
+                if h.get("var"):
+                    env[h["var"]["id"]] = ("exception", str(t))
+                self.block(h["body"], env, this)
         elif k == "null":
             return
         elif k in ("call", "asg", "un", "bin", "cond", "ctor", "cast"):
@@ -268,6 +291,12 @@ class Evaluator:
             self.eval(s, env, this)
         else:
             raise Broken("comparator uses a statement kind the evaluator does not model: %s at %s" % (k, s.get("l")))
+
+    def _is_var_ref(self, c, vid):
+        u = unwrap(c)
+        while isinstance(u, dict) and u.get("k") == "call" and u.get("fn") == "operator bool":
+            u = unwrap(u.get("obj") if u.get("obj") is not None else u["a"][0])
+        return isinstance(u, dict) and u.get("k") == "ref" and u.get("id") == vid
 
     def truth(self, v):
         if isinstance(v, bool):
